@@ -1,31 +1,42 @@
 (* Props/C06b.v — property C06, continuation: the fused contraction strategy
-   computes the same VALUES as the blockwise one.  Statements only; proofs live in
-   Proofs/FusedSem.v (on top of Proofs/FuseGroups.v for C05, Proofs/Tdot.v for C02,
-   Proofs/FusedProofs.v for the alignment, Proofs/WfProofs.v for C01).
+   computes the same VALUES as the blockwise one, and all modes of tensordot agree.
+   Statements only; proofs live in Proofs/FusedSem.v and Proofs/FusedSemGen.v (on
+   top of Proofs/FuseGroups.v for C05, Proofs/Tdot.v for C02, Proofs/FusedProofs.v
+   for the alignment, Proofs/WfProofs.v for C01).
 
    Full record equality of the two results is FALSE in general: with two or more
    free legs on both sides the fused route stores additional all-zero blocks
-   (FusedSem.ExC06b.records_differ_values_agree), and the blockwise result prunes
-   the unused charges of its index tables while the unfused legs of the fused
-   result are the unpruned legs of the aligned operands.  The statement is
-   therefore: equal charge, and equal coordinate semantics `sem` at every
-   coordinate list that is in range of the free legs of the aligned operands
-   (a superset of the tables of both results).
+   (FusedSemGen.ExC06b.ex22_values: 4 blocks against 2, aarray_eqb = false).
+   What holds, for every symmetry with GroupLaws / OrderLaws, every ring with
+   SumLaws, all ranks and tables, valid operands a b whose contracted legs match
+   (same chargemap, opposite direction), distinct in-range contracted axes aa / ab
+   (ONE OR MORE), free legs la / rb of ANY number of axes (none, one, several):
 
-   Ingredients (each a theorem below):
-   (i)   alignment preserves wf_array (the `_full` statement of Props/C06.v);
-   (ii)  the coordinates of one fused index split into (sub-sector, sub-offsets):
-         a sum over the fused coordinates = the sum over all tuples of sub-charges
-         and sub-offsets of the fused legs, tuples no stored sector has counting 0;
-   (iii) unfusing a leg whose table is a fused index with unused charges dropped
-         (what tdot_blockwise's pruning leaves): the unfused coordinates read the
-         fused coordinate; a sub-sector no stored sector has gives no block;
-   (iv)  C06_fused_eq_blockwise_partial: the value theorem when the contracted
-         legs and the free legs of both operands are each >= 2 axes (every group
-         is really fused: the case in which the extra zero blocks appear). *)
+     C06_fused_eq_blockwise:  equal charge; the blockwise result's index tables are
+       the free legs of the aligned operands with unused charges pruned; and
+       sem (fused) cs = sem (blockwise) cs for EVERY coordinate list cs in range of
+       the free legs of the aligned operands (a superset of the coordinates in
+       range of either result's own tables).
+     C06_all_modes_agree:  auto / fused / blockwise of a_tensordot2 return results
+       with equal charge and equal sem on the same coordinates.
+
+   Ingredients, each a theorem: (i) alignment preserves wf_array (the `_full`
+   statement of Props/C06.v); (ii) C06_fused_coordinate_sum_split: a sum over the
+   coordinates of one fused index = the sum over all (sub-sector, sub-offsets)
+   tuples of the fused legs, tuples no stored sector has counting zero;
+   (iii) C06_pruned_unfuse_sem: unfusing a leg whose table is a fused index with
+   unused charges dropped reads the fused coordinate; (iv) the coordinate
+   semantics of fuse_core (Props/C05b.v, C05_fuse_core_sem).
+
+   Not covered: no contracted axis at all (aa = []) through the FUSED route (then
+   `auto` takes the blockwise route: C06_tensordot_modes); equality of the index
+   tables of the fused result with the pruned tables; coordinates outside the
+   tables.  C03_tensordot_element_full is NOT discharged: it is stated for
+   Fermi.f_tensordot over Array.tdot_fused (a_unfuse_all) with blocks_ok operands,
+   the theorems here are for Fused.tdot_fused2 with wf_array operands. *)
 From SV Require Import Base.Prelude Base.Sym Base.Tensor Model.Sectors Model.Array Model.Wf Model.Fused
   Model.SymInst Proofs.SymLaws Proofs.Tdot Proofs.OrderProofs Proofs.FuseProofs Proofs.FuseGroups
-  Proofs.FusedProofs Proofs.FusedSem Props.C06.
+  Proofs.FusedProofs Proofs.FusedSem Proofs.FusedSemGen Props.C06.
 Local Open Scope nat_scope.
 
 Theorem C06_alignment_preserves_wf_proved : C06_alignment_preserves_wf_full.
@@ -58,18 +69,18 @@ Theorem C06_pruned_unfuse_sem :
   Forall (fun g => g <> []) groups -> NoDup (concat groups) ->
   Forall (fun ax => ax < length (indices G R x)) (concat groups) ->
   forall g, In g (slots (length (indices G R x)) groups) -> is_singlet g = false ->
-  forall (Y : aarray G R) (ax : nat) (dropped : list (C G)),
+  forall (Y : aarray G R) (ax : nat) (dropped : list (C G)) (IXr : list (index G)),
   nth ax (indices G R Y) (dflt_index G) =
     drop_charges G (fused_index G (indices G R x) (sectors G R x) g) dropped ->
+  (forall ch, ~ In ch dropped ->
+     size_of G (nth ax IXr (dflt_index G)) ch = size_of G (fused_index G (indices G R x) (sectors G R x) g) ch) ->
   NoDup (sectors G R Y) ->
-  (forall K T, In (K, T) (blocks G R Y) ->
-     length K = length (indices G R Y) /\ tshape T = block_shape G (indices G R Y) K) ->
-  ax < length (indices G R Y) ->
+  (forall K T, In (K, T) (blocks G R Y) -> length K = length IXr /\ tshape T = block_shape G IXr K) ->
+  ax < length IXr ->
   (forall K T, In (K, T) (blocks G R Y) -> ~ In (nth ax K (ident G)) dropped) ->
   forall s' (cL csub cR : list (C G * nat)),
   In s' (sectors G R x) -> length cL = ax -> map fst csub = group_subsector G s' g ->
-  (In (map fst cL ++ group_charge G (indices G R x) s' g :: map fst cR) (sectors G R Y) ->
-   coords_ok G (indices G R (PY' G R x g Y ax dropped)) (cL ++ csub ++ cR) = true) ->
+  coords_ok G (replace_with_seq IXr ax (subs_of G (indices G R x) g)) (cL ++ csub ++ cR) = true ->
   a_unfuse G R Y ax = Some (PY' G R x g Y ax dropped) /\
   sem G R (PY' G R x g Y ax dropped) (cL ++ csub ++ cR) =
   sem G R Y (cL ++ (group_charge G (indices G R x) s' g,
@@ -77,25 +88,37 @@ Theorem C06_pruned_unfuse_sem :
                     offset (map (sz G R x s') g) (map snd csub)) :: cR).
 Proof. exact pruned_unfuse_and_sem. Qed.
 
-Theorem C06_fused_eq_blockwise_partial :
+Theorem C06_fused_eq_blockwise :
   forall (G : Symmetry) (R : Ring), GroupLaws G -> OrderLaws G -> SumLaws R ->
   forall (a b : aarray G R) (la aa ab rb : list nat),
   wf_array G R a = true -> wf_array G R b = true ->
   axes_ok (ndim G R a) aa = true -> axes_ok (ndim G R b) ab = true ->
   legs_match G R a b aa ab ->
   la = rest_axes (ndim G R a) aa -> rb = rest_axes (ndim G R b) ab ->
-  2 <= length aa -> 2 <= length la -> 2 <= length rb ->
+  aa <> [] ->
   let f := tdot_fused2 G R a b la aa ab rb in
   let w := tdot_blockwise G R a b la aa ab rb in
-  let a1 := al_a G R a b aa ab in
-  let b1 := al_b G R a b aa ab in
+  let free := without_axes (indices G R (al_a G R a b aa ab)) aa ++ without_axes (indices G R (al_b G R a b aa ab)) ab in
   charge G R f = charge G R w /\
-  forall csl csr, coords_ok G (without_axes (indices G R a1) aa) csl = true ->
-                  coords_ok G (without_axes (indices G R b1) ab) csr = true ->
-                  sem G R f (csl ++ csr) = sem G R w (csl ++ csr).
-Proof. exact fused_eq_blockwise_NS. Qed.
+  indices G R w = prune_indices G free (sectors G R w) /\
+  forall cs, coords_ok G free cs = true -> sem G R f cs = sem G R w cs.
+Proof. exact fused_eq_blockwise. Qed.
+
+Theorem C06_all_modes_agree :
+  forall (G : Symmetry) (R : Ring), GroupLaws G -> OrderLaws G -> SumLaws R ->
+  forall (a b : aarray G R) (axes : nat + (list Z * list Z)) (aa ab : list nat) (m1 m2 : tmode),
+  parse_axes (ndim G R a) (ndim G R b) axes = Some (aa, ab) ->
+  wf_array G R a = true -> wf_array G R b = true ->
+  axes_ok (ndim G R a) aa = true -> axes_ok (ndim G R b) ab = true ->
+  legs_match G R a b aa ab -> aa <> [] ->
+  let free := without_axes (indices G R (al_a G R a b aa ab)) aa ++ without_axes (indices G R (al_b G R a b aa ab)) ab in
+  exists r1 r2, a_tensordot2 G R a b axes m1 = Some r1 /\ a_tensordot2 G R a b axes m2 = Some r2 /\
+    charge G R r1 = charge G R r2 /\
+    forall cs, coords_ok G free cs = true -> sem G R r1 cs = sem G R r2 cs.
+Proof. exact all_modes_agree. Qed.
 
 Print Assumptions C06_alignment_preserves_wf_proved.
 Print Assumptions C06_fused_coordinate_sum_split.
 Print Assumptions C06_pruned_unfuse_sem.
-Print Assumptions C06_fused_eq_blockwise_partial.
+Print Assumptions C06_fused_eq_blockwise.
+Print Assumptions C06_all_modes_agree.
